@@ -38,11 +38,15 @@ PLAN = {
         "rule": "random histories (apply/ite/quantify/substitute/restrict/cofactor/clone/drop/drop-on-thread/gc/add_vars/"
                 "set_var_order[_seq]/from-table) over 3..7 variables on bdd, bcdd, zbdd; after every step the new handle is "
                 "compared (==, hash, cmp) with every live handle against its model table; full audits every 25 steps. "
+                "MTBDD (I64, F64 incl. NaN/-0 normalisation) and TDD: the value-table canonicity clauses of the C10/C11 history monitors. "
                 "distinct = distinct (kind, operation, non-constant result table, #vars) observed.",
         "assumptions": ["truth-table model is the specification", "histories are sampled"],
         "jobs": [
             {"monitor": "c01_hist", "variant": "rel", "shards": 16},
             {"monitor": "c01_hist", "variant": "dbg", "shards": 16},
+            # MTBDD and TDD: the canonicity clauses (equal value tables <=> identical handles) of their own monitors
+            {"monitor": "c10_dd", "variant": "rel", "shards": 16},
+            {"monitor": "c11_rand", "variant": "rel", "shards": 16},
         ],
         "require_counters": {"all": ["gcs_that_freed", "audits"]},
     },
@@ -58,6 +62,8 @@ PLAN = {
         "jobs": [
             {"monitor": "c03_hist", "variant": "rel", "shards": 16},
             {"monitor": "c03_hist", "variant": "dbg", "shards": 16},
+            # concurrent bubble sort of set_var_order (>= 65536 nodes, 4 workers): full audit after each reordering
+            {"monitor": "c08_large", "variant": "rel", "shards": {"quick": 4, "thorough": 16}, "parallel": 4},
         ],
         "require_counters": {"all": ["audits", "failed_operations_oom", "gcs_that_freed"]},
     },
@@ -135,12 +141,19 @@ PLAN = {
                 "sample, thorough all 65536) x 8 operators x 7 sets, compared with the model and with the two-step OxiDD result; "
                 "substitute x 17^3 replacement vectors (16-function palette or unsubstituted per variable; quick 1/8 sample) x all "
                 "f with ONE Subst object reused for all 256 f; alternating substitutions on the same variable with gc between; "
-                "random instances n=4..8. distinct = distinct (kind, op, operands, set/cube/vector, order) with non-constant result.",
+                "random instances n=4..8 (split depth 0/1/2/MAX); the trait's DEFAULT apply_forall/exists/unique on a newtype function "
+                "providing only the required methods; 13..16-variable operands with the automatic split depth; substitutions "
+                "created on 4 threads at once. distinct = distinct (kind, op, operands, set/cube/vector, order) with non-constant result.",
         "assumptions": ["truth-table model is the specification"],
         "jobs": [
             {"monitor": "c04_exh", "variant": "rel", "shards": 30},
             {"monitor": "c04_rand", "variant": "rel", "shards": 16},
             {"monitor": "c04_rand", "variant": "dbg", "shards": 8},
+            {"monitor": "c04_rand", "variant": "st", "shards": 8},
+            {"monitor": "c04_defaults", "variant": "rel", "shards": 6},
+            {"monitor": "c04_deep", "variant": "rel", "shards": 16},
+            # substitutions created concurrently must get distinct ids (the id is the apply-cache key)
+            {"monitor": "c06_subst_ids", "variant": "rel", "shards": 2, "nondeterministic": True},
         ],
         "require_counters": {"all": ["gc_between_substitutions"]},
     },
@@ -149,13 +162,17 @@ PLAN = {
         "exhaustive": True,
         "rule": "zbdd, n=3, 6 orders x threads {1,4}: empty/base/singleton; subset0/subset1/change x 256 families x 3 variables; "
                 "union/intsec/diff x all 65536 pairs; make_node for every variable and every (hi,lo) whose variables lie below it; "
-                "random families over 2..8 variables with add_vars between operations, family view vs interp vs eval. distinct = "
+                "random families over 2..8 variables with add_vars between operations (split depth 0/1/2/MAX), family view vs interp "
+                "vs eval; dense families over 13..16 variables on 2..8 workers with the automatic split depth. distinct = "
                 "distinct (operation, operands, order) with non-empty result.",
         "assumptions": ["set definitions from the BooleanVecSet rustdoc, written pointwise on bit vectors"],
         "jobs": [
             {"monitor": "c09_exh", "variant": "rel", "shards": 12},
             {"monitor": "c09_rand", "variant": "rel", "shards": 16},
             {"monitor": "c09_rand", "variant": "dbg", "shards": 8},
+            {"monitor": "c09_rand", "variant": "st", "shards": 8},
+            {"monitor": "c09_deep", "variant": "rel", "shards": 16},
+            {"monitor": "c09_deep", "variant": "dbg", "shards": 8, "tiers": ("thorough",)},
         ],
         "require_counters": {"all": ["add_vars", "make_node_calls"]},
     },
@@ -174,6 +191,7 @@ PLAN = {
         "jobs": [
             {"monitor": "c10_scalar", "variant": "rel", "shards": 16},
             {"monitor": "c10_dd", "variant": "rel", "shards": 16},
+            {"monitor": "c10_dd", "variant": "st", "shards": 8},
             {"monitor": "c10_dd", "variant": "dbg", "shards": 16, "tiers": ("thorough",)},
         ],
         "require_counters": {"all": ["pairs", "histories"]},
@@ -192,6 +210,7 @@ PLAN = {
         "jobs": [
             {"monitor": "c11_exh", "variant": "rel", "shards": 16},
             {"monitor": "c11_rand", "variant": "rel", "shards": 16},
+            {"monitor": "c11_rand", "variant": "st", "shards": 8},
             {"monitor": "c11_rand", "variant": "dbg", "shards": 8},
         ],
         "require_counters": {"all": ["pairs", "triples"]},
@@ -214,6 +233,7 @@ PLAN = {
             {"monitor": "c12_natural", "variant": "dbg", "shards": 16},
             {"monitor": "c12_natural", "variant": "miri", "shards": 64, "only_shards": 16, "timeout": {"thorough": 3000}, "tiers": ("thorough",)},
             {"monitor": "c12_satcount", "variant": "rel", "shards": 16},
+            {"monitor": "c12_satcount", "variant": "st", "shards": 8},
             {"monitor": "c12_cache", "variant": "rel", "shards": 16},
             {"monitor": "c12_cache", "variant": "dbg", "shards": 8},
         ],
@@ -232,6 +252,7 @@ PLAN = {
             {"monitor": "c13_exh", "variant": "rel", "shards": 18},
             {"monitor": "c13_rand", "variant": "rel", "shards": 16},
             {"monitor": "c13_rand", "variant": "dbg", "shards": 8},
+            {"monitor": "c13_rand", "variant": "st", "shards": 8},
             {"monitor": "c13_uniform", "variant": "rel", "shards": 7},
         ],
         "require_counters": {"all": ["uniform_draws"]},
@@ -435,7 +456,9 @@ PLAN = {
         "exhaustive": True,
         "rule": "n=3: every ordered pair of the 256 functions x 8 binary operators, not/not_owned/cofactors/"
                 "satisfiable/valid for every function, ite triples (quick: 1/16 sample; thorough: all 2^24), for "
-                "{bdd,bcdd,zbdd} x 6 variable orders x threads {1,4}; n=4..8 random operands. distinct = distinct "
+                "{bdd,bcdd,zbdd} x 6 variable orders x threads {1,4}; n=4..8 random operands (split depth 0/1/2/MAX, eval with "
+                "shuffled / repeated / omitted arguments); single-threaded function types (variant st); 13..16-variable dense "
+                "operands on 2..8 workers with the automatic split depth. distinct = distinct "
                 "(kind, operator, operand tables, order, threads) tuples whose result is not constant.",
         "assumptions": ["truth-table model in harness/src/tt.rs is the specification",
                         "exhaustive only for 3 variables; larger n sampled from VERIF_SEED"],
@@ -445,7 +468,14 @@ PLAN = {
             {"monitor": "c02_rand", "variant": "dbg", "shards": 8},
             {"monitor": "c02_pairs", "variant": "pointer", "shards": 36, "tiers": ("thorough",)},
             {"monitor": "c02_rand", "variant": "pointer", "shards": 8},
+            # the single-threaded function types (no `multi-threading` feature) are separate code
+            {"monitor": "c02_rand", "variant": "st", "shards": 8},
+            {"monitor": "c02_pairs", "variant": "st", "shards": 36, "tiers": ("thorough",)},
+            # automatic split depth: parallel -> sequential hand-over in the middle of an operation
+            {"monitor": "c02_deep", "variant": "rel", "shards": 16},
+            {"monitor": "c02_deep", "variant": "dbg", "shards": 8, "tiers": ("thorough",)},
         ],
+        "require_counters": {"all": ["cases_with_at_least_split_depth_levels"]},
     },
 }
 
